@@ -200,6 +200,10 @@ def marker_only(c, chk):
             for cn, t, ins in ap.path.assume:
                 if cn[0] != 'icmp':
                     continue
+                if yy(cn[2]) and yy(cn[3]) and any(sym.mentions(x, lambda v: v[0] == 'ld' and v[1] == ('ld', ('g', '@cfg_yytext'), (0, 0)) or
+                                                                 (v[0] == 'ld' and v[1][0] == 'ld' and v[1][1] == ('g', '@cfg_yytext'))) for x in (cn[2], cn[3])):
+                    n += 1          # compared with the first byte of the match: the marker itself
+                    continue
                 for a, b in ((cn[2], cn[3]), (cn[3], cn[2])):
                     if sym.is_const(b) and yy(a) and 0 < (b[1] & 0xff) < 256 and b[1] != 0:
                         n += 1
